@@ -86,3 +86,6 @@ package gossip
 //@ lemma exchangeMonotone(hasA bool, a version.Heartbeat, hasB bool, b version.Heartbeat)
 //@   ensures  hasA ==> aHasAfter(hasA, a, hasB, b) && !a.OlderThan(aAfter(hasA, a, hasB, b))
 //@   ensures  hasB ==> bHasAfter(hasA, a, hasB, b) && !b.OlderThan(bAfter(hasA, a, hasB, b))
+//@ # the excepted case is covered by the exchange in the other direction (the uninformed node initiates)
+//@ lemma exchangeReverseCoversException(a version.Heartbeat)
+//@   ensures aHasAfter(false, zeroHB(), true, a) && aAfter(false, zeroHB(), true, a) == a && bAfter(false, zeroHB(), true, a) == a
